@@ -49,7 +49,7 @@ def resName (name : String) : String := (lower name).map fun c => if c = ' ' the
 def notify (uid : Nat) (topic : String) (pid : Option Nat) (extra : String := "-") : M Unit := do
   let a ← getA
   let w ← getW uid
-  if a.pubClosed then pure () else emit (.ev (resName w.name) topic pid extra)
+  if a.pubClosed then pure () else emitEv (resName w.name) topic pid extra
 
 /-- `Watcher.call_hook` -/
 def callHook (uid : Nat) (hname : String) : M Bool := do
